@@ -322,9 +322,13 @@ func (w *inotify) remove(name string) error {
 		return err
 	}
 
+	// Keep going after an error: the paths are no longer in our tables, so
+	// nobody else would remove the kernel watches of the remaining ones (a
+	// recursive watch with one directory that was just deleted).
+	var first error
 	for _, wd := range wds {
 		_, err := unix.InotifyRmWatch(w.fd, wd)
-		if err != nil {
+		if err != nil && first == nil {
 			// TODO: Perhaps it's not helpful to return an error here in every
 			// case; the only two possible errors are:
 			//
@@ -336,10 +340,10 @@ func (w *inotify) remove(name string) error {
 			// when they are removed explicitly or implicitly; explicitly by
 			// inotify_rm_watch, implicitly when the file they are watching is
 			// deleted.
-			return err
+			first = err
 		}
 	}
-	return nil
+	return first
 }
 
 func (w *inotify) WatchList() []string {
